@@ -142,4 +142,24 @@ int w_categorize(int which, int pre, int has_changes, int has_canonical,
   out[2] = canon.get_category(); out[3] = canon.get_local_category();
   return r;
 }
+
+// what abidiff does to one changed diff node: context from options, the harmless_harmful_filter
+// visit (pre-order), then the filtering decision.  The node starts without any category.
+int w_node_pipeline(int show_harmless, int show_harmful, int show_redundant, int leaf_only, int has_canonical)
+{
+  options opts;
+  opts.show_harmless_changes = show_harmless != 0;
+  opts.show_harmful_changes = show_harmful != 0;
+  opts.show_redundant_changes = show_redundant != 0;
+  opts.leaf_changes_only = leaf_only != 0;
+  diff_context ctxt;
+  set_diff_context_from_opts(&ctxt, opts);
+  diff d(&ctxt, NO_CHANGE_CATEGORY, NO_CHANGE_CATEGORY);
+  diff canon(&ctxt, NO_CHANGE_CATEGORY, NO_CHANGE_CATEGORY);
+  if (has_canonical) d.priv_->canonical_diff_ = &canon;
+  d.gh_has_changes_ = 1;
+  filtering::harmless_harmful_filter f;
+  f.visit(&d, true);
+  return d.is_filtered_out();
+}
 }
